@@ -1077,6 +1077,11 @@ def run_c15(facts, out):
                 sets += mult
             else:
                 from hp import slice_cursor_break_flag
+                r2_ = strip(r_)
+                if isinstance(r2_, dict) and r2_.get('k') == 'local':
+                    its_ = unique_inits(c2, r2_['name'])
+                    if len(its_) == 1:
+                        r_ = its_[0]
                 scf = slice_cursor_break_flag(c2, h2, r_)
                 if scf is not None and scf[0]:
                     sets += mult
